@@ -5,6 +5,7 @@ import (
 	"context"
 	"fmt"
 	"math/rand"
+	"net"
 	"os"
 	"strconv"
 	"strings"
@@ -64,6 +65,30 @@ func c07b(b bool) string {
 	return "0"
 }
 
+// c07CtxResolver answers like the scripted resolver, but - as net.Resolver does - not before the
+// answer has "arrived" (gate) and not at all when the context of the lookup is cancelled before
+// that: the lookup then ends with the context's error.
+type c07CtxResolver struct {
+	r    *mockdns.Resolver
+	gate chan struct{}
+}
+
+func (r *c07CtxResolver) LookupTXT(ctx context.Context, name string) ([]string, error) {
+	select {
+	case <-r.gate:
+	case <-ctx.Done():
+	}
+	if err := ctx.Err(); err != nil {
+		if err == context.DeadlineExceeded {
+			return nil, &net.DNSError{Err: "i/o timeout", Name: name, IsTimeout: true}
+		}
+		return nil, &net.DNSError{Err: "operation was canceled", Name: name}
+	}
+	return r.r.LookupTXT(ctx, name)
+}
+
+var c07VerifyCount int
+
 // one case against the real Verifier
 func c07Verify(out *vh.Out, c *vdmarc.Case, seedOK bool) {
 	hdr, err := textproto.ReadHeader(bufio.NewReader(strings.NewReader(c.HdrRaw)))
@@ -77,8 +102,19 @@ func c07Verify(out *vh.Out, c *vdmarc.Case, seedOK bool) {
 	}
 	op := c.Op("verify", c07FieldValues(hdr), out)
 
-	v := NewVerifier(&mockdns.Resolver{Zones: c.MockZones()})
+	// the DNS answers arrive either at once or only after Verifier.FetchRecord has returned (the
+	// lookup is asynchronous); alternating, the verdict must not depend on it
+	res0 := &c07CtxResolver{r: &mockdns.Resolver{Zones: c.MockZones()}, gate: make(chan struct{})}
+	c07VerifyCount++
+	early := c07VerifyCount%2 == 0
+	if early {
+		close(res0.gate)
+	}
+	v := NewVerifier(res0)
 	v.FetchRecord(context.Background(), hdr)
+	if !early {
+		close(res0.gate)
+	}
 	if seedOK {
 		rand.Seed(c.Seed)
 	}
@@ -253,7 +289,7 @@ func TestVerifC07Extract(t *testing.T) {
 				kind = "multipleAddrs"
 			case strings.Contains(err.Error(), "missing address"):
 				kind = "missingAddr"
-			case strings.Contains(err.Error(), "malformed From header field: ") && strings.Contains(err.Error(), "address:"):
+			case strings.Contains(err.Error(), "malformed From header field: address:"): // address.Split's errors start like that; net/mail's may quote the field
 				kind = "malformedAddr"
 			case strings.Contains(err.Error(), "malformed From header field"):
 				kind = "malformed"
